@@ -189,10 +189,16 @@ def ref_eval(g, vals, arrs):
         else: raise Reject(k)
     except (ZeroDivisionError, OverflowError, ValueError, TypeError):
         raise Reject("domain")
-    if isinstance(r, complex) or (isinstance(r, float) and (math.isnan(r) or math.isinf(r) or abs(r) > 1e12)):
+    if isinstance(r, (complex, np.complexfloating)):
         raise Reject("range")
-    if isinstance(r, (float, np.floating)) and r != 0 and abs(r) < 1e-9:
-        raise Reject("tiny")
+    if isinstance(r, (float, np.floating)):
+        rf = float(r)
+        if math.isnan(rf) or math.isinf(rf) or abs(rf) > 1e12:
+            raise Reject("range")
+        if rf != 0 and abs(rf) < 1e-9:
+            raise Reject("tiny")
+        if isinstance(r, np.floating) and r.dtype != np.float64:
+            raise Reject("narrow-float")       # np.exp(bool) yields float16: numpy typing, not grouping
     return r
 
 
